@@ -83,6 +83,12 @@ func thorough(id string, run func(p *Prog, r *Report), repo, verif string, r *Re
 	for _, b := range bs {
 		vs = append(vs, variant{"mutants/benign/" + filepath.Base(b), b, "benign"})
 	}
+	// the held-out corpus (heavier refactorings the rules were not tuned on) is analysed too and reported
+	// separately: its alarms are the measured envelope of recognised code shapes (DESIGN.md §9.0.4)
+	hs, _ := filepath.Glob(filepath.Join(verif, "mutants", "benign-heldout", "*.patch"))
+	for _, b := range hs {
+		vs = append(vs, variant{"mutants/benign-heldout/" + filepath.Base(b), b, "heldout"})
+	}
 	sort.Slice(vs, func(i, j int) bool { return vs[i].name < vs[j].name })
 	self, _ := os.Executable()
 	type res struct {
@@ -140,11 +146,21 @@ func thorough(id string, run func(p *Prog, r *Report), repo, verif string, r *Re
 	wg.Wait()
 	caught, total, benignSilent, benignTotal := 0, 0, 0, 0
 	var rows []map[string]interface{}
-	var missed, falseAlarms []string
+	var missed, falseAlarms, heldAlarms []string
+	heldSilent, heldTotal := 0, 0
 	for _, x := range results {
 		row := map[string]interface{}{"variant": x.name, "kind": x.kind, "outcome": x.outcome, "rules": uniqSorted(x.rules)}
 		rows = append(rows, row)
 		if strings.HasPrefix(x.outcome, "skipped") {
+			continue
+		}
+		if x.kind == "heldout" {
+			heldTotal++
+			if x.outcome == "silent" {
+				heldSilent++
+			} else {
+				heldAlarms = append(heldAlarms, x.name)
+			}
 			continue
 		}
 		if x.kind == "breaking" {
@@ -171,11 +187,17 @@ func thorough(id string, run func(p *Prog, r *Report), repo, verif string, r *Re
 		"benign_silent":      benignSilent,
 		"benign_total":       benignTotal,
 		"benign_false_alarm": falseAlarms,
+		"heldout_silent":     heldSilent,
+		"heldout_total":      heldTotal,
+		"heldout_alarm":      heldAlarms,
 		"variants":           rows,
 	}
 	fmt.Printf("%s thorough: configurations %d; sensitivity: %d/%d breaking variants reported, %d/%d benign variants silent\n", id, len(configMatrix)+1, caught, total, benignSilent, benignTotal)
 	if len(missed) > 0 {
 		fmt.Printf("  note: not reported by %s's own rules (may be covered by another property's check): %v\n", id, missed)
+	}
+	if heldTotal > 0 {
+		fmt.Printf("  held-out refactorings (not tuned on): %d/%d silent under this property\n", heldSilent, heldTotal)
 	}
 	if len(falseAlarms) > 0 {
 		fmt.Printf("  note: benign variants that raised an alarm: %v\n", falseAlarms)
